@@ -7,3 +7,5 @@ def run(ctx):
     text_layout(ctx)
     csv_quoting(ctx)
     print_numbers(ctx)
+    from ..scen_misc import titles
+    titles(ctx)
